@@ -408,7 +408,7 @@ class Pool():
                     if not flag:
                         if worker.id not in self._closed: # if a worker died while enqueueing, its death has already been handled but we will (possibly) end up here
                             handle_death(worker)
-                    else:
+                    elif worker.id not in self._closed: # a worker whose death has already been handled (e.g. while enqueueing) can still have results in its pipe - its inputs have been re-queued (or dropped) by then
                         handle_new_result(worker, result)
 
             ok = (self._depleted and not self._pending and not self._retries)
